@@ -266,6 +266,8 @@ func sortedKeys(m map[string]bool) []string {
 
 // smtName makes an SMT-safe symbol out of an arbitrary Go identifier path.
 func smtName(s string) string {
+	s = strings.ReplaceAll(s, "github.com/buchgr/bazel-remote/v2/", "")
+	s = strings.ReplaceAll(s, "github.com.buchgr.bazel_remote.v2.", "")
 	var b strings.Builder
 	for _, r := range s {
 		switch {
